@@ -66,8 +66,20 @@ def byte_mutants(data, rng, k):
                b"\r", b"\n", b":", b"{", b"(", b"[", b".", b"\x0b", b"\xe2\x98\x83"]
     for _ in range(k):
         b = bytearray(data)
-        kind = rng.choice(["flip", "ins", "del", "trunc", "ins2"])
+        kind = rng.choice(["flip", "ins", "del", "trunc", "ins2", "unterminated"])
         i = rng.randrange(len(b) + 1)
+        if kind == "unterminated":
+            # an opener at i whose closer never comes (long tail up to the end of input)
+            op = rng.choice([b'"', b"/*", b"text:\n"])
+            tail = bytes(b[i:])
+            if op == b'"':
+                tail = tail.replace(b'"', b"'").replace(b"\\", b"/")
+            elif op == b"/*":
+                tail = tail.replace(b"*/", b"* /")
+            else:
+                tail = tail.replace(b"\n.", b"\n .")
+            out.append(bytes(b[:i]) + op + tail + b" padding so that the tail is long enough to matter")
+            continue
         if kind == "flip" and i < len(b):
             b[i] ^= 1 << rng.randrange(8)
         elif kind == "ins":
